@@ -51,7 +51,7 @@ class QuadratureRule:
             This identifier is used to provide unique names to tables and symbols
             in generated code.
         """
-        return self.hash_obj.hexdigest()[-3:]
+        return self.hash_obj.hexdigest()[-10:]
 
 
 def create_quadrature_points_and_weights(
